@@ -1,7 +1,7 @@
 SPECIFICATION Spec
 CONSTANTS
-  Keys = {"red", "#f00", "#ff0000", "b", "2"}
-  Keys3 = {"#f00", "b", "2"}
+  Keys = {"red", "#f00", "#ff0000", "1in", "96px"}
+  Keys3 = {"#f00", "96px", "b"}
   MaxOps = 3
 INVARIANTS InvKeysUnique Emit
 CHECK_DEADLOCK FALSE
